@@ -629,6 +629,218 @@ class Model:
         cache[key] = new
         return new
 
+    def expand_locals(self, fd):
+        """A copy of ``fd`` in which every use of a local that is bound exactly once,
+        by a plain assignment, is replaced by the assigned expression (copy
+        propagation on the syntax tree; uses before the assignment in source order
+        are left alone).  'Hoist a repeated sub-expression into a local' is the
+        inverse refactoring; rules that look at what an argument IS work on this
+        copy."""
+        cache = self.__dict__.setdefault("_exp_cache", {})
+        if id(fd) in cache:
+            return cache[id(fd)]
+        new = _cp(fd)
+        stores = {}
+        seq = [0]
+
+        def number(n):      # source order, also among spliced statements of one line
+            seq[0] += 1
+            n._seq = seq[0]
+            for ch in ast.iter_child_nodes(n):
+                number(ch)
+        number(new)
+        for n in _walk_same_scope(new):
+            if isinstance(n, ast.Name) and isinstance(n.ctx, (ast.Store, ast.Del)):
+                stores[n.id] = stores.get(n.id, 0) + 1
+        params = {a.arg for a in new.args.args + new.args.kwonlyargs + new.args.posonlyargs}
+        # a container that is filled after it was bound is not its initial value
+        mutated = set()
+        for n in ast.walk(new):
+            if isinstance(n, (ast.Subscript, ast.Attribute)) \
+                    and isinstance(n.ctx, (ast.Store, ast.Del)) \
+                    and isinstance(n.value, ast.Name):
+                mutated.add(n.value.id)
+            elif isinstance(n, ast.Call) and isinstance(n.func, ast.Attribute) \
+                    and isinstance(n.func.value, ast.Name) and n.func.attr in _MUTATORS:
+                mutated.add(n.func.value.id)
+        defs = {}
+        for n in _walk_same_scope(new):
+            tgt = None
+            if isinstance(n, ast.Assign) and len(n.targets) == 1:
+                tgt = n.targets[0]
+            elif isinstance(n, ast.AnnAssign) and n.value is not None:
+                tgt = n.target
+            if isinstance(tgt, ast.Name) and stores.get(tgt.id) == 1 \
+                    and tgt.id not in params and tgt.id not in mutated \
+                    and not any(isinstance(x, ast.Name) and x.id == tgt.id
+                                for x in ast.walk(n.value)) \
+                    and not any(isinstance(x, (ast.Yield, ast.YieldFrom, ast.Await,
+                                               ast.NamedExpr)) for x in ast.walk(n.value)):
+                defs[tgt.id] = (n.value, n._seq)
+
+        class Sub(ast.NodeTransformer):
+            depth = 0
+
+            def visit_Name(self, x):
+                d = defs.get(x.id)
+                if d is not None and isinstance(x.ctx, ast.Load) \
+                        and getattr(x, "_seq", 0) > d[1] and self.depth < 6:
+                    e = _cp(d[0])
+                    for y in ast.walk(e):
+                        y._seq = x._seq
+                        if hasattr(y, "lineno"):
+                            y.lineno = x.lineno
+                    self.depth += 1
+                    e = self.visit(e)
+                    self.depth -= 1
+                    return e
+                return x
+        new = Sub().visit(new)
+        # an assignment all of whose uses were replaced is dropped ('as if never hoisted')
+        left = {x.id for x in ast.walk(new) if isinstance(x, ast.Name)
+                and isinstance(x.ctx, ast.Load)}
+        dead = {k for k in defs if k not in left}
+
+        class Drop(ast.NodeTransformer):
+            def generic_visit(self, node):
+                super().generic_visit(node)
+                for fld in ("body", "orelse", "finalbody"):
+                    b = getattr(node, fld, None)
+                    if isinstance(b, list) and b and isinstance(b[0], ast.stmt):
+                        nb = [s_ for s_ in b if not (
+                            isinstance(s_, (ast.Assign, ast.AnnAssign))
+                            and isinstance(getattr(s_, "target", None) or s_.targets[0], ast.Name)
+                            and (getattr(s_, "target", None) or s_.targets[0]).id in dead
+                            and (isinstance(s_, ast.AnnAssign) or len(s_.targets) == 1))]
+                        if not nb and fld == "body":
+                            nb = [ast.Pass(lineno=b[0].lineno)]
+                        setattr(node, fld, nb)
+                return node
+        new = Drop().visit(new)
+        ast.fix_missing_locations(new)
+        for p_ in ast.walk(new):
+            for ch in ast.iter_child_nodes(p_):
+                ch._parent = p_
+        new._parent = getattr(fd, "_parent", None)
+        cache[id(fd)] = new
+        return new
+
+    def comprehensions(self, fd):
+        """A copy of ``fd`` in which a container that is created empty and filled by
+        the loop that follows (``d = {}`` / ``for T in I: d[K] = V``; ``l = []`` /
+        ``for T in I: l.append(V)``) is written as the comprehension it is."""
+        cache = self.__dict__.setdefault("_compr_cache", {})
+        if id(fd) in cache:
+            return cache[id(fd)]
+        new = _cp(fd)
+
+        def empty(v):
+            if isinstance(v, ast.Dict) and not v.keys:
+                return "dict"
+            if isinstance(v, (ast.List,)) and not v.elts:
+                return "list"
+            if isinstance(v, ast.Call) and isinstance(v.func, ast.Name) and not v.args \
+                    and not v.keywords and v.func.id in ("dict", "list", "set"):
+                return v.func.id
+            return None
+
+        def rewrite(stmts):
+            out, i = [], 0
+            while i < len(stmts):
+                a = stmts[i]
+                b = stmts[i + 1] if i + 1 < len(stmts) else None
+                tgt = None
+                if isinstance(a, ast.Assign) and len(a.targets) == 1:
+                    tgt, val = a.targets[0], a.value
+                elif isinstance(a, ast.AnnAssign) and a.value is not None:
+                    tgt, val = a.target, a.value
+                kind = empty(val) if isinstance(tgt, ast.Name) else None
+                comp = None
+                if kind and isinstance(b, ast.For) and not b.orelse and len(b.body) == 1:
+                    st = b.body[0]
+                    gen = [ast.comprehension(target=b.target, iter=b.iter, ifs=[], is_async=0)]
+                    inner = st
+                    if isinstance(st, ast.If) and not st.orelse and len(st.body) == 1:
+                        gen[0].ifs = [st.test]
+                        inner = st.body[0]
+                    uses = lambda e: any(isinstance(x, ast.Name) and x.id == tgt.id   # noqa
+                                         for x in ast.walk(e))
+                    if kind == "dict" and isinstance(inner, ast.Assign) \
+                            and len(inner.targets) == 1 \
+                            and isinstance(inner.targets[0], ast.Subscript) \
+                            and isinstance(inner.targets[0].value, ast.Name) \
+                            and inner.targets[0].value.id == tgt.id \
+                            and not uses(inner.value) and not uses(inner.targets[0].slice) \
+                            and not any(uses(t) for t in gen[0].ifs) and not uses(b.iter):
+                        comp = ast.DictComp(key=inner.targets[0].slice, value=inner.value,
+                                            generators=gen)
+                    elif kind in ("list", "set") and isinstance(inner, ast.Expr) \
+                            and isinstance(inner.value, ast.Call) \
+                            and isinstance(inner.value.func, ast.Attribute) \
+                            and isinstance(inner.value.func.value, ast.Name) \
+                            and inner.value.func.value.id == tgt.id \
+                            and inner.value.func.attr == ("append" if kind == "list" else "add") \
+                            and len(inner.value.args) == 1 and not uses(inner.value.args[0]) \
+                            and not any(uses(t) for t in gen[0].ifs) and not uses(b.iter):
+                        comp = (ast.ListComp if kind == "list" else ast.SetComp)(
+                            elt=inner.value.args[0], generators=gen)
+                if comp is not None:
+                    out.append(ast.Assign(targets=[ast.Name(id=tgt.id, ctx=ast.Store())],
+                                          value=comp, lineno=a.lineno))
+                    i += 2
+                    continue
+                for fld in ("body", "orelse", "finalbody"):
+                    blk = getattr(a, fld, None)
+                    if isinstance(blk, list) and blk and isinstance(blk[0], ast.stmt):
+                        setattr(a, fld, rewrite(blk))
+                for h in getattr(a, "handlers", []):
+                    h.body = rewrite(h.body)
+                out.append(a)
+                i += 1
+            return out
+        new.body = rewrite(new.body)
+        ast.fix_missing_locations(new)
+        for p_ in ast.walk(new):
+            for ch in ast.iter_child_nodes(p_):
+                ch._parent = p_
+        new._parent = getattr(fd, "_parent", None)
+        cache[id(fd)] = new
+        return new
+
+    def normal(self, fd):
+        """``fd`` with private helpers inlined, single-assignment locals propagated
+        and fill-loops written as comprehensions: the form in which 'extract
+        helper', 'hoist into a local' and 'comprehension <-> loop' refactorings of
+        one function look alike."""
+        return self.expand_locals(self.comprehensions(self.expand_locals(self.inlined(fd))))
+
+    def returns_by_condition(self, fd):
+        """[(conditions, value node)] for every return of ``fd`` (in tail form):
+        conditions is a tuple of (test text, polarity) of the enclosing ifs, with
+        leading ``not`` folded into the polarity.  None when a return sits in a
+        loop/try/with."""
+        body = _tail_form(list(fd.body))
+        if body is None:
+            return None
+        out = []
+
+        def go(stmts, conds):
+            for s_ in stmts:
+                if isinstance(s_, ast.Return):
+                    out.append((conds, s_.value))
+                    return
+                if isinstance(s_, ast.If) and any(isinstance(x, ast.Return)
+                                                  for x in _walk_same_scope(s_)):
+                    t, pol = s_.test, True
+                    while isinstance(t, ast.UnaryOp) and isinstance(t.op, ast.Not):
+                        t, pol = t.operand, not pol
+                    txt = ast.unparse(t)
+                    go(s_.body, conds + ((txt, pol),))
+                    go(s_.orelse, conds + ((txt, not pol),))
+                    return
+        go(body, ())
+        return out
+
     def _inline_body(self, stmts, f, mi, ci, depth, stack, taken):
         out = []
         for s in stmts:
@@ -796,6 +1008,11 @@ class Model:
             for n in ast.walk(mi.tree):
                 if isinstance(n, (ast.FunctionDef, ast.AsyncFunctionDef)):
                     yield mi, n
+
+
+_MUTATORS = {"append", "extend", "insert", "add", "update", "pop", "popitem", "remove",
+             "discard", "clear", "setdefault", "sort", "reverse", "appendleft",
+             "difference_update", "intersection_update", "symmetric_difference_update"}
 
 
 def _tail_form(stmts):
